@@ -45,7 +45,9 @@ fn fwd(op: &Op, _ctx: &dyn Context, operands: &mut dyn CoordinateSet) -> usize {
 
             let q = ancillary::qs(lat.sin(), e);
             // Rounding may take the radicand slightly below zero at the pole in the center
-            let rho = a * (qp + sign * q).max(0.0).sqrt();
+            // (not f64::max, which would swallow a NaN latitude)
+            let radicand = qp + sign * q;
+            let rho = a * if radicand < 0.0 { 0.0 } else { radicand }.sqrt();
 
             let easting = x_0 + rho * sin_lon;
             let northing = y_0 + sign * rho * cos_lon;
